@@ -114,6 +114,7 @@ func checkC13(c *Ctx) {
 	r.Explain = "Decides structural clauses of C13 on the emitted text reconstructed from the generators' syntax tree (emission grammar; every arm of every guard, loops unrolled 0/1/2 times with different arms per iteration; thorough: every pair of arms). R13a every Go variant of every unit parses (go/parser) and the constant server runtime type-checks against the real dependency packages. R13h/R08a every TypeScript variant has balanced delimiters, terminated literals and no block-scoped name declared twice in one block (lexical; TypeScript is not type-checked: no TS front end exists in the sandbox). R13e in every Go variant every import is used and every package qualifier is imported (the client unit is explored with its import-deciding helpers followed, so import decisions and uses are correlated). R13b field-shape compatibility: for each codec emitter and each field shape (kind x singular/optional/oneof-member/repeated) that its collector lets through and that the documented rules accept, the emitted methods are type-checked against a synthesized stand-in for protoc-gen-go's struct (field of the shape's Go type). R13c two features that both declare MarshalJSON on one message must be excluded by a conflict check. R13d schema-author free text printed into string literals/comments must be quoted. R13f identifiers used as Go field selectors must come from protogen's GoName. Not decided: complete type-checking of holed units for arbitrary descriptors beyond the enumerated field-use worlds; TypeScript typing; cross-file duplicate declarations in one Go package."
 	r.Trusted = []string{"go/parser and go/types accept exactly what the Go compiler's front end accepts", "protoc-gen-go's field type mapping (protobuf-go generated-code guide)"}
 	r.Rule("R13a", "every Go variant of every emitted unit parses; the constant runtime type-checks", 20)
+	r.Rule("R13i", "printf-style calls in emitted Go have one verb per argument (go vet printf check)", 10)
 	r.Rule("R13h", "every TypeScript variant is lexically well-formed (balanced, no duplicate block-scoped declaration)", 2)
 	r.Rule("R13e", "imports agree with uses in every Go variant", 20)
 	r.Rule("R13c", "no two features emit MarshalJSON for the same message without a conflict check", 12)
@@ -135,10 +136,62 @@ func checkC13(c *Ctx) {
 		parseBad := ""
 		var parsePos string
 		var parseDet map[string]any
+		fmtBad := map[string]string{}
 		for _, v := range ex.Variants {
 			for _, u := range v.Units {
 				nGo++
-				_, _, err := ParseUnit(u)
+				fset, pf, err := ParseUnit(u)
+				if err == nil {
+					// R13i: printf-style calls with a constant format: one verb per argument
+					ast.Inspect(pf, func(n ast.Node) bool {
+						call, ok := n.(*ast.CallExpr)
+						if !ok || len(call.Args) == 0 {
+							return true
+						}
+						fn := types.ExprString(call.Fun)
+						if fn != "fmt.Errorf" && fn != "fmt.Sprintf" && fn != "fmt.Printf" && fn != "fmt.Fprintf" {
+							return true
+						}
+						ai := 0
+						if fn == "fmt.Fprintf" {
+							ai = 1
+						}
+						if ai >= len(call.Args) || call.Ellipsis.IsValid() {
+							return true
+						}
+						lit, ok := call.Args[ai].(*ast.BasicLit)
+						if !ok || lit.Kind != token.STRING {
+							return true
+						}
+						f, uerr := strconv.Unquote(lit.Value)
+						if uerr != nil {
+							return true
+						}
+						verbs := 0
+						for i := 0; i < len(f); i++ {
+							if f[i] != '%' {
+								continue
+							}
+							if i+1 < len(f) && f[i+1] == '%' {
+								i++
+								continue
+							}
+							verbs++
+						}
+						if nargs := len(call.Args) - ai - 1; nargs != verbs {
+							line := fset.Position(call.Pos()).Line
+							pos, em := "", holeFree(lit.Value)
+							if line >= 1 && line <= len(u.Lines) {
+								pos = c.P.Pos(u.Lines[line-1].Pos)
+							}
+							k := fmt.Sprintf("%s: %s(%s) has %d verbs for %d arguments", pos, fn, em, verbs, nargs)
+							if _, ok := fmtBad[k]; !ok {
+								fmtBad[k] = pos
+							}
+						}
+						return true
+					})
+				}
 				if err != nil && parseBad == "" {
 					parseBad = err.Error()
 					line := 0
@@ -155,6 +208,13 @@ func checkC13(c *Ctx) {
 		}
 		key := pkgShort(ri.Pkg) + " *" + ri.Suffix
 		r.CheckD(parseBad == "", "R13a", key+": every variant parses", parsePos, "an emitted Go file is not syntactically valid: "+parseBad, parseDet)
+		for _, k := range sortedKeys(fmtBad) {
+			r.Bad("R13i", key+": "+k[strings.Index(k, ": ")+2:], fmtBad[k],
+				"emitted code calls a printf-style function whose constant format does not have one verb per argument (go vet's printf check fails on the generated package; a doubled %% is a literal percent sign, so e.g. `%%w` does not wrap the error and the argument is printed as %!(EXTRA …)): "+k, nil)
+		}
+		if len(fmtBad) == 0 {
+			r.OK("R13i", key+": printf-style calls have one verb per argument", "")
+		}
 		r.Count("variants:"+key, len(ex.Variants))
 	}
 	// imports: each unit root explored with the collector invariants fixed; units that generateFile creates
